@@ -309,6 +309,7 @@ fn gen(r: &mut Rng, tier: Tier, out: &mut Out) {
 	for _ in 0..rounds {
 		let n = r.range(2, 4);
 		let mut cfg = MapCfg::basic(n);
+		cfg.top_doc_pct = 30;
 		cfg.dummy_names = !r.chance(1, 8);
 		cfg.max_classes = r.range(1, 5);
 		cfg.max_members = r.range(0, 4);
